@@ -11,11 +11,13 @@
   [B] `every_builtin_returns_plain_data` (SqLemmas/PlainAll.lean, one lemma per entry of the table, 42 entries): plain
   arguments, a plain heap and plain regex-engine answers give a plain result and leave heap and answers plain — the
   ONLY exception being an index read whose container is the type object `dict` (D15).  `copy.deepcopy`, all arithmetic
-  primitives and the in-place operators are covered on the way.  Pending: the same invariant for whole machine runs.
+  primitives and the in-place operators are covered on the way.  `plain_step` / `plain_run` (SqLemmas/PlainMachine.lean):
+  the same for the whole machine — control, every continuation frame, iteration state, heap, probe table — over whole runs.
 -/
 import Sq.Machine
 import SqProps.C13
 import SqLemmas.PlainAll
+import SqLemmas.PlainMachine
 namespace SqProps.C02
 open Sq
 
@@ -101,5 +103,29 @@ theorem np_excludes_opaque (k : String) (vs ws : List Val) : ¬ NP (.tuple (vs +
 /-- stored copies are plain too: `copy.deepcopy` of plain data in a plain heap -/
 theorem deepcopy_returns_plain_data {h : Heap} {v v' : Val} {h' : Heap} (hh : HeapNP h) (hv : NP v)
     (hc : deepcopy' h v = .ok (v', h')) : HeapNP h' ∧ NP v' := deepcopy'_np hh hv hc
+
+/-- **[B] plain_step**: if every value of a configuration (control, continuation frames incl. iteration state, heap,
+    regex answers, probe table) is plain data and the type object `dict` is not among them, then after one machine
+    step — whatever it does: any builtin, lambda call, map / filter / reduce / sorted, host callback, assignment with its
+    deep copy, error unwinding — every value of the configuration is plain data -/
+theorem plain_data_is_closed_under_steps (budgets : List Nat) (c : Core) (hc : CorePD c) : CoreNP (stepCore budgets c) :=
+  plain_step budgets c hc
+
+/-- … and along whole runs, as long as the type object `dict` does not turn up as a value (the D15 side condition) -/
+theorem plain_data_along_runs (n : Nat) (c : Cfg) (h0 : CorePD c.core)
+    (hfree : ∀ i, i < n → CoreNP (run (i + 1) c).core → CorePD (run (i + 1) c).core) :
+    ∀ i, i ≤ n → CoreNP (run i c).core := fun i hi => (plain_run n c h0 hfree i hi).1
+
+/-- non-vacuity: a configuration about to evaluate `1 + 2` over a heap holding one empty names mapping satisfies the
+    hypothesis of `plain_step` -/
+example : CorePD ({ ctl := .ev (.bin .add (.value (.num (Dec.ofInt 1))) (.value (.num (Dec.ofInt 2)))) 0, k := [], w := { heap := #[.dict []], vms := [{ scopes := [0], ops := 0 }], log := [], rng := 1, rx := [], probes := [] } } : Core) := by
+  refine ⟨trivial, fun fr h => (by cases h), ⟨?_, fun a h => (by cases h), fun p h => (by cases h)⟩⟩
+  intro a o hg
+  match a, hg with
+  | 0, hg =>
+    have : o = .dict [] := by simp [Heap.get?] at hg; exact hg.symm
+    subst this
+    exact fun kv h => by cases h
+  | n + 1, hg => simp [Heap.get?] at hg
 
 end SqProps.C02
